@@ -9,6 +9,7 @@ stub: the operand pool and its aliasing, uuid.uuid4 (seeded), the key-wise
 """
 import copy
 import math
+import warnings
 import uuid as _uuid
 
 import numpy as np
@@ -38,8 +39,21 @@ LEVEL_KEYS = {
     "": [5, 6, 7],               # a falsy level name that is not None
     "iv": ["(0,1]", "(1,2]", "(2,4]"],      # interval keys (histogram bins, R ranges); written as strings in the trace
     "x": [0.5, 1.5, "<NA>", -2.25],         # float keys, one of them missing (NaN label; written "<NA>" in traces)
+    "r": [0, 10, 20, 30],                   # load cases numbered by a range (a single-level operand may carry a RangeIndex)
+    "t": ["t:0", "t:60", "t:300", "t:360"],  # local time stamps (time-zone aware, across a DST switch); "t:<minutes>" in traces
 }
-NAMES = ["a", "b", "c", "d", None, "from", "to", "", "iv", "x"]
+NAMES = ["a", "b", "c", "d", None, "from", "to", "", "iv", "x", "r", "t"]
+T0 = pd.Timestamp("2024-03-30 21:00", tz="Europe/Berlin")
+
+
+def _progression(keys):
+    """(start, stop, step) if the integer keys, in the given order, are an arithmetic progression; else None."""
+    if len(keys) < 2 or not all(isinstance(k, int) and not isinstance(k, bool) for k in keys):
+        return None
+    step = keys[1] - keys[0]
+    if step == 0 or any(keys[q + 1] - keys[q] != step for q in range(len(keys) - 1)):
+        return None
+    return keys[0], keys[-1] + step, step
 
 
 # ------------------------------------------------------------------ seeded uuid seam
@@ -71,6 +85,8 @@ def _key(name, k):
     if name == "iv" and isinstance(k, str) and k.startswith("("):
         a, b = k[1:-1].split(",")
         return pd.Interval(float(a), float(b), closed="right")
+    if isinstance(k, str) and k.startswith("t:"):
+        return T0 + pd.Timedelta(minutes=int(k[2:]))
     return k
 
 
@@ -97,7 +113,10 @@ def build(spec, pool_objs):
             return pd.DataFrame(vals, index=idx, columns=spec["columns"])
     names = spec["names"]
     rows = [tuple(_key(n, k) for n, k in zip(names, r)) for r in spec["index"]]
-    if len(names) == 1:
+    prog = _progression([r[0] for r in spec["index"]]) if len(names) == 1 and spec.get("as_range") else None
+    if prog:
+        idx = pd.RangeIndex(prog[0], prog[1], prog[2], name=names[0])      # what a default-indexed, reversed or thinned frame carries
+    elif len(names) == 1:
         idx = pd.Index([r[0] for r in rows], name=names[0])
     else:
         idx = pd.MultiIndex.from_tuples(rows, names=names)
@@ -132,6 +151,10 @@ def _py(k):
         return "<NA>"
     if isinstance(k, pd.Interval):
         return "(%g,%g]" % (k.left, k.right)
+    if isinstance(k, pd.Timestamp):
+        if k.tz is None or str(k.tz) != str(T0.tz):
+            return "t?:" + k.isoformat()        # not one of the operands' keys (they are local times of one zone)
+        return "t:%d" % int((k - T0) / pd.Timedelta(minutes=1))
     if isinstance(k, (np.integer,)):
         return int(k)
     if isinstance(k, (np.floating,)):
@@ -214,6 +237,7 @@ def generate(prop, rng, tier):
         keys = list(LEVEL_KEYS[n])
         m = rng.randint(2, len(keys))
         key_sets[n] = rng.sample(keys, m) if rng.random() < 0.5 else keys[:m]
+    key_sets["r"] = rng.choice([[0, 10, 20, 30], [0, 10, 20], [10, 20, 30], [0, 20], [10, 30], [0, 30], [10, 20]])
     n_pool = rng.randint(3, 6)
     for i in range(n_pool):
         r = rng.random()
@@ -260,6 +284,10 @@ def generate(prop, rng, tier):
         rows = full_rows_for(names, key_sets)
         if rng.random() < 0.6:
             rng.shuffle(rows)
+        if len(names) == 1 and rng.random() < 0.5:
+            spec["as_range"] = True
+            if names[0] == "r" and rng.random() < 0.8:
+                rows = sorted(rows, reverse=rng.random() < 0.5)
         spec["index"] = rows
         if spec["kind"] == "series":
             spec["values"] = [[cnt.next()] for _ in rows]
@@ -629,7 +657,9 @@ def _run(trace, out, log):
                     # caller's objects are his: whatever the call does, it may not leave them changed, and
                     # the history goes on with the same objects afterwards.
                     try:
-                        Broadcaster(obj).broadcast(prm_o)
+                        with warnings.catch_warnings():
+                            warnings.simplefilter("ignore")
+                            Broadcaster(obj).broadcast(prm_o)
                         out.count("probe:out_of_scope_call_returned")
                     except Exception:       # noqa
                         out.count("probe:out_of_scope_call_raised")
